@@ -122,6 +122,44 @@ type OutCol struct {
 	I1, I2 int
 	Width  int
 	Mod    float64
+	Align  string // "" = right
+}
+
+// OutStyle: file-level settings of the output configurations ("" / 0 = the harness defaults ',', ' ', 'n.a.', one header line)
+type OutStyle struct {
+	Sep       string
+	Fill      string
+	Na        string
+	HeadLines int // number of header lines + 1 (0 = default = one header line)
+}
+
+func (o OutStyle) sep() string {
+	if o.Sep == "" {
+		return ","
+	}
+	return o.Sep
+}
+func (o OutStyle) fill() string {
+	if o.Fill == "" {
+		return " "
+	}
+	return o.Fill
+}
+func (o OutStyle) headLines() int {
+	if o.HeadLines == 0 {
+		return 1
+	}
+	return o.HeadLines - 1
+}
+
+// colIndex: position of the first column that shows the given variable (-1 if none)
+func colIndex(cols []OutCol, v string) int {
+	for i, c := range cols {
+		if c.Var == v {
+			return i
+		}
+	}
+	return -1
 }
 
 type Scenario struct {
@@ -199,6 +237,7 @@ type Scenario struct {
 	VirtualDate  string
 
 	DailyCols  []OutCol
+	OutStyle   OutStyle
 	YearlyCols []OutCol
 	CropCols   []OutCol
 
@@ -1180,10 +1219,40 @@ func genOutputConfigs(sc *Scenario, r *Rng, p Profile) {
 			{Format: "%.3f", Var: "PRO", I1: 1, I2: 2, Width: 7}, {Format: "%s", Var: "SoilID", Width: 5},
 			{Format: "%.2f", Var: "OUTSUM", Width: 9, Mod: 0.5}, {Format: "%.3f", Var: "GRW", Width: 8},
 			{Format: "%.2f", Var: "ETA", Width: 7}, {Format: "%d", Var: "INTWICK.Index", Width: 3}, {Format: "%s", Var: "C1NotStable", Width: 12},
+			{Format: "%s", Var: "C1NotStableErr", Width: 12}, {Format: "%s", Var: "POLYD", Width: 6}, {Format: "%.4f", Var: "W", I1: r.Intn(n), Width: 8},
+			{Format: "%.0f", Var: "AKF.Num", Width: 3}, {Format: "%.3f", Var: "TP", I1: r.Intn(n), Width: 8},
 		}
 		k := r.Range(1, 12)
+		var cols []OutCol
 		for i := 0; i < k; i++ {
-			sc.DailyCols = append(sc.DailyCols, pool[r.Intn(len(pool))])
+			cols = append(cols, pool[r.Intn(len(pool))])
+		}
+		// the date column is the first column in half of the cases and anywhere else in the other half; a quarter of the
+		// configurations start with a text column that is empty on most days (records then begin with an empty field)
+		pos := 0
+		if r.Bool(0.5) {
+			pos = r.Intn(len(cols) + 1)
+		}
+		cols = append(cols[:pos], append([]OutCol{{Format: "%s", Var: "AKTUELL", Width: 10}}, cols[pos:]...)...)
+		if r.Bool(0.25) {
+			lead := []OutCol{{Format: "%s", Var: "C1NotStable", Width: 12}, {Format: "%s", Var: "C1NotStableErr", Width: 12}, {Format: "%s", Var: "POLYD", Width: 6}, {Format: "%s", Var: "Crop", Width: 5}}
+			cols = append([]OutCol{lead[r.Intn(len(lead))]}, cols...)
+		}
+		aligns := []string{"right", "right", "left", "center", "none"}
+		for i := range cols {
+			if r.Bool(0.4) {
+				cols[i].Align = aligns[r.Intn(len(aligns))]
+			}
+		}
+		sc.DailyCols = cols
+		if r.Bool(0.4) {
+			sc.OutStyle.Sep = []string{";", "|", ",", ":"}[r.Intn(4)]
+		}
+		if r.Bool(0.3) {
+			sc.OutStyle.Na = []string{"''", "-9999", "NA"}[r.Intn(3)]
+		}
+		if r.Bool(0.3) {
+			sc.OutStyle.HeadLines = 1 + r.Intn(3) // 0, 1 or 2 header lines
 		}
 	} else {
 		sc.DailyCols = append(sc.DailyCols,
@@ -1204,6 +1273,17 @@ func genOutputConfigs(sc *Scenario, r *Rng, p Profile) {
 	if p.RandomOutCfg && r.Bool(0.5) {
 		sc.YearlyCols = append(sc.YearlyCols, OutCol{Format: "%.1f", Var: "AUFNASUM", Width: 9}, OutCol{Format: "%v", Var: "Nope", Width: 5})
 		sc.CropCols = append(sc.CropCols, OutCol{Format: "%.1f", Var: "LAImax", Width: 7})
+	}
+	if p.RandomOutCfg && r.Bool(0.4) {
+		// yearly and crop files: columns in random order, possibly led by a text column that is empty (no polygon id, stable run)
+		r.Shuffle(len(sc.YearlyCols), func(i, j int) { sc.YearlyCols[i], sc.YearlyCols[j] = sc.YearlyCols[j], sc.YearlyCols[i] })
+		r.Shuffle(len(sc.CropCols), func(i, j int) { sc.CropCols[i], sc.CropCols[j] = sc.CropCols[j], sc.CropCols[i] })
+		if r.Bool(0.5) {
+			sc.YearlyCols = append([]OutCol{{Format: "%s", Var: "POLYD", Width: 6}}, sc.YearlyCols...)
+		}
+		if r.Bool(0.5) {
+			sc.CropCols = append([]OutCol{{Format: "%s", Var: "NotStableErr", Width: 12}}, sc.CropCols...)
+		}
 	}
 }
 
